@@ -550,7 +550,59 @@ def gen_values(rng):
     return finish(rng, spec, 'values')
 
 
-PROFILES = {'values': gen_values, 'general': gen_general, 'groups': gen_groups, 'contention': gen_contention, 'buffers': gen_buffers,
+def gen_parallel(rng):
+    """Idle-longest profile: source(s) -> one holding device -> 2-4 parallel single-slot devices (handlers,
+    processors with pool needs, sinks) whose inputs are blocked/unblocked and which are shut down / failed / restored
+    while busy or idle."""
+    spec = {'devs': [], 'groups': [], 'res': {'r': rng.choice([1, 2, 3])}, 'actions': []}
+    devs = spec['devs']
+    G = [0.5, 1, 1, 2, 3, 4.5]
+    ns = rng.choice([1, 2])
+    for i in range(ns):
+        devs.append({'k': 'S', 'n': f'S{i}', 'c': rng.choice(G), 'budget': rng.choice([4, 9, INF]), 'batch': None, 'val': 0})
+    srcs = [f'S{i}' for i in range(ns)]
+    if rng.random() < 0.5:
+        devs.append({'k': 'B', 'n': 'U', 'c': 0, 'cap': rng.choice([1, 3, INF]), 'up': srcs})
+    else:
+        devs.append({'k': 'H', 'n': 'U', 'c': rng.choice([0, 1]), 'up': srcs})
+    par = []
+    nonsink = []
+    for i in range(rng.choice([2, 3, 4])):
+        k = rng.choice('HPPK')
+        if k == 'H':
+            devs.append({'k': 'H', 'n': f'X{i}', 'c': rng.choice(G), 'up': ['U']})
+        elif k == 'P':
+            devs.append({'k': 'P', 'n': f'X{i}', 'c': rng.choice(G), 'up': ['U'], 'res': rng.choice([None, {'r': 1}, {'r': 2}]),
+                         'alt': None, 'wod': rng.choice([0.5, 2]), 'wocap': 1, 'wocost': 0})
+        else:
+            devs.append({'k': 'K', 'n': f'X{i}', 'c': rng.choice(G), 'up': ['U']})
+        par.append((f'X{i}', k))
+        if k != 'K':
+            nonsink.append(f'X{i}')
+    if nonsink:
+        devs.append({'k': 'K', 'n': 'K', 'c': rng.choice([0, 1, 2]), 'up': nonsink})
+    acts = []
+    for _ in range(rng.choice([0, 3, 6, 10])):
+        t = rng.choice([1, 2, 2.5, 4, 5, 7, 9, 12])
+        pr = rng.choice(PRIOS)
+        x, k = rng.choice(par)
+        r = rng.random()
+        if r < 0.5:
+            acts.append([t, pr, 'block', x, rng.random() < 0.5])
+        elif k == 'P':
+            if r < 0.7:
+                acts.append([t, pr, 'shutdown', x])
+            elif r < 0.85:
+                acts.append([t, pr, 'fail', x, 0])
+            else:
+                acts.append([t, pr, 'restore', x])
+    spec['actions'] = acts
+    spec = finish(rng, spec, 'parallel')
+    spec['T'] = [rng.choice([10, 20, 40])]
+    return spec
+
+
+PROFILES = {'parallel': gen_parallel, 'values': gen_values, 'general': gen_general, 'groups': gen_groups, 'contention': gen_contention, 'buffers': gen_buffers,
             'noise': lambda r: gen_buffers(r, True), 'interrupt': gen_interrupt, 'batching': gen_batching}
 
 
